@@ -216,7 +216,12 @@ class Earley:
         cols = self.chart(x)
 
         value = cols[N].c_chart.get((0, self.cfg.S), self.cfg.R.zero)
-        return value / self.rescale(cols, 0, N)
+        C = self.rescale(cols, 0, N)
+        if value != 0 and (C == 0 or not np.isfinite(C)):
+            # the running product of the coefficients over/underflowed although
+            # the quotient itself may be representable: divide in log space
+            return np.exp(np.log(value) - self.log_rescale(cols, 0, N))
+        return value / C
 
     def rescale(self, cols, I, K):
         "returns the product of the rescaling coefficients for `cols[I:K]`."
